@@ -34,6 +34,24 @@ partial def loop (h : IO.FS.Stream) (out : IO.FS.Stream) (reg : Registry) : IO U
     | none =>
       out.putStrLn "BADOP"
       loop h out reg
+  | "MCOMPILE" :: name :: ents =>
+    match ents.mapM Lou.EngineProto.parseEntry with
+    | none =>
+      out.putStrLn "BADOP"
+      loop h out reg
+    | some es =>
+      match Lou.Compile.compile es with
+      | none =>
+        out.putStrLn "T null"
+        loop h out reg
+      | some t =>
+        out.putStrLn (Lou.EngineProto.showTable t)
+        loop h out ((name, t) :: reg.filter (·.1 != name))
+  | ["MDUMP", name] =>
+    match reg.find? (·.1 == name) with
+    | some e => out.putStrLn (Lou.EngineProto.showTable e.2)
+    | none => out.putStrLn "BADOP"
+    loop h out reg
   | _ =>
     match Lou.EngineProto.handle? reg toks with
     | some r =>
